@@ -12,7 +12,7 @@ import ast
 
 from ..cfg import cfg_of
 from ..core import AnalysisError
-from ..facts import loc
+from ..facts import class_const, loc
 from ..packs import tables
 from ..src import Repo, call_name, deep_strip, walk_no_nested
 
@@ -189,6 +189,7 @@ def check(ctx):
     ctx.rule("R3", "class <-> list: each device list filters on class constant X and constructs the class mapped to X with (device key, DEVICES row, matched demand)")
     ctx.rule("R4", "state key exists for every wiring: for every combination and every device in DEVICES with a Ud demand, DEVICES[d][2] is an item (exhaustive join)")
     ctx.rule("R5", "keys distinct: DEVICES keys, upper-cased sensor names, heater/watercare/reminders/keypad literals and the eco key are pairwise distinct; unique_id = parent-key")
+    ctx.rule("R7", "device table completeness: every pump P<n>, Waterfall, BL and LI that a shipped log table offers with a Ud<device> demand has a DEVICES row of the matching class")
     ctx.rule("R6", "get_device returns the first element whose key equals the argument; devices lists the keys of the same list")
     scans = []
     for cname, fname in SCANS:
@@ -203,7 +204,7 @@ def check(ctx):
 
     # R4 table join
     c = repo.cls("GeckoConstants")
-    DEV = repo.fold(c.consts["DEVICES"], c.mod, c)
+    DEV = class_const(repo, "GeckoConstants", "DEVICES")
     n = 0
     bad = {}
     for pack, cfg, log in T.combos():
@@ -221,6 +222,30 @@ def check(ctx):
     for (stem, d), cnt in sorted(bad.items()):
         ctx.ob("R4", f"{stem}::{d}::state-key", False, f"{stem}: device {d} has a user demand but its state item {DEV[d][2]!r} does not exist in {cnt} combination(s): constructing the device raises KeyError", T.modules[stem].path)
     ctx.ob("R4", "all-wirings-have-state-key", not bad, f"{len(bad)} (module, device) pairs lack the state item", sample={"rule": "R4", "wirings": n, "devices": sorted(DEV)})
+    # R7: the device table covers the statement's device kinds.  A device absent from DEVICES is silently
+    # dropped by the "remove unknown device classes" filter, so every pump (P<n>), the waterfall, the blower and
+    # the light that some shipped log table offers with a Ud<device> demand needs a row of the right class
+    import re as _re
+    KIND = ((_re.compile(r"^P[0-9]+$"), "DEVICE_CLASS_PUMP"), (_re.compile(r"^Waterfall$"), "DEVICE_CLASS_PUMP"),
+            (_re.compile(r"^BL$"), "DEVICE_CLASS_BLOWER"), (_re.compile(r"^LI$"), "DEVICE_CLASS_LIGHT"))
+    offered = {}
+    for stem, m in T.modules.items():
+        uds = {u.upper() for u in m.props.get("user_demand_keys", [])}
+        for d in m.props.get("all_device_keys", []):
+            if f"UD{d}".upper() in uds:
+                offered.setdefault(d, stem)
+    n_k = 0
+    for d, stem in sorted(offered.items()):
+        for rx, const in KIND:
+            if rx.match(d):
+                n_k += 1
+                want = class_const(repo, "GeckoConstants", const)
+                row = DEV.get(d)
+                ok = row is not None and len(row) >= 4 and row[3] == want
+                ctx.ob("R7", f"DEVICES::{d}", ok,
+                       f"device {d} (offered with a Ud{d} demand by {stem} and others) has {'no row' if row is None else 'class ' + repr(row[3])} in GeckoConstants.DEVICES, expected a {want} row: an output wired to {d} silently yields no device",
+                       c.loc, sample={"rule": "R7", "device": d, "row": list(row) if row else None})
+    ctx.floor("R7", "statement device kinds offered by shipped tables", n_k, 8)
     # user demand key is an Enum with labels (modes list)
     for stem, m in sorted(T.modules.items()):
         wanted = {f"UD{d}".upper() for d in m.props.get("all_device_keys", []) if d in DEV}
@@ -232,8 +257,8 @@ def check(ctx):
                 ctx.ob("R4", f"{stem}::{u}::demand-is-enum", False, f"{stem}: user demand {u} is a {it.ctor}, no mode list", f"{m.path}:{it.lineno}")
 
     # R5 keys distinct
-    sens = repo.fold(c.consts["SENSORS"], c.mod, c)
-    bsens = repo.fold(c.consts["BINARY_SENSORS"], c.mod, c)
+    sens = class_const(repo, "GeckoConstants", "SENSORS")
+    bsens = class_const(repo, "GeckoConstants", "BINARY_SENSORS")
     keys = list(DEV.keys())
     keys += [s[0].upper() for s in sens] + [s[0].upper() for s in bsens]
     lit = {}
